@@ -4,3 +4,5 @@ INVARIANT LayoutInv
 INVARIANT SchedInv
 INVARIANT SoundInv
 INVARIANT Emit
+INVARIANT BoundCompleteInv
+INVARIANT BoundSoundInv
